@@ -1,5 +1,5 @@
 """C18: assembly back ends = generator output = specification = ABI; no executable stack."""
-import os, shutil, subprocess, filecmp, glob, hashlib
+import os, re, shutil, subprocess, filecmp, glob, hashlib
 import build, common
 
 LEVEL = "exploration"
@@ -70,6 +70,24 @@ def elf(ctx):
     ctx.sample("ELF: PT_GNU_STACK of libascon.so, the tools and test programs from the repository's own CMake build; .note.GNU-stack of %d assembled objects" % len(objs))
 
 
+def entry_point_census(ctx):
+    """every global function label of every checked-in assembly file must be executed by the host harness or by an emulator; otherwise say so (incomplete, not a violation)"""
+    srcs = ""
+    for f in ["harness/c18_host.c"] + [os.path.join("emu", x) for x in os.listdir(os.path.join(common.VERIF, "emu")) if x.endswith(".py")]:
+        srcs += open(os.path.join(common.VERIF, f)).read()
+    # names built by token pasting / formatting in the harness sources (x##N##, x" #N "_permute, "ascon_x%d_permute")
+    srcs = "".join(srcs.replace("##N##", k).replace('" #N "', k).replace("%d", k) for k in "234")
+    n = 0
+    for d in ("core", "masking"):
+        for f in sorted(glob.glob(os.path.join(build.REPO, "src", d, "*.S"))):
+            text = open(f).read()
+            for sym in sorted(set(m.lstrip("_") for m in re.findall(r"^\s*\.glob[a]?l\s+(\S+)", text, re.M))):
+                n += 1
+                if not re.search(r"\b" + re.escape(sym) + r"\b", srcs):
+                    ctx.cap("assembly entry point %s of %s is not executed by any harness or emulator" % (sym, os.path.basename(f)))
+    ctx.stats["asm_entry_points"] = n
+
+
 def native_i386(ctx, py):
     """(e) the i386 file assembled with gcc -m32 into a freestanding program and run on the host CPU in 32-bit mode (if the host can)"""
     out = os.path.join(build.BUILD, "tmp", "c18-i386-%d" % os.getpid())
@@ -107,6 +125,7 @@ def run(ctx):
     t = ctx.thorough
     generators(ctx)
     elf(ctx)
+    entry_point_census(ctx)
     jobs = []
     for tr in (build.ALL_TRIPLES if t else [build.DEFAULT_TRIPLE, (2, 1, 2), (3, 3, 3)]):
         lib = build.build_lib("asm", tr, opt="-O2")
